@@ -280,6 +280,11 @@ def r17cd(ck, fb, rows):
     ck.analysed(gb, nb)
     ck.require(rv.get('Manager') == ['0'] and rv.get('Developer') == ['1'] and rv.get('Visitor') == ['2'] and rv.get('None', ['x']) == [], 'R17c', 'UserRole::new:mapping', nb.where(),
                'role strings map as %s (expected "0"->Manager, "1"->Developer, "2"->Visitor, anything else -> None)' % rv)
+    extra = {v: strs for v, strs in rv.items() if v not in ('Manager', 'Developer', 'Visitor', 'None') and strs}
+    ck.require(not extra, 'R17c', 'UserRole::new:no-other-role-strings', nb.where(),
+               'UserRole::new maps further role strings to roles that carry resources: %s (resources %s) - a stored role list containing such a string '
+               '(the user API splits the roles value on commas without validating the parts, so "2," yields "") is granted those routes' %
+               (extra, {v: rg.get(v) for v in extra}))
     ck.require(rg.get('None', []) == [] and 'OldConsole' in rg, 'R17c', 'get_resources:None-empty', gb.where(), 'UserRole::None has resources %s' % rg.get('None'))
 
     def role_rows(variant):
